@@ -353,13 +353,19 @@ def check_user_errors(F, run):
                 n_helper += 1
                 par = parents[-1] if parents else {}
                 ok = par.get("k") == "Try" and par["e"] is n
+                if not ok:
+                    # handing the helper's Result back unchanged — as the tail expression of the function or as the operand of `return` — propagates it too
+                    x, ps = n, list(parents)
+                    while ps and ps[-1].get("k") == "Block" and ps[-1].get("expr") is x and ps[-1] is not b["body"]:
+                        x = ps.pop()
+                    ok = (bool(ps) and ps[-1] is b["body"] and b["body"].get("expr") is x) or (bool(ps) and ps[-1].get("k") == "Ret" and ps[-1].get("e") is x)
                 run.check(ok, "R6.5", b["path"], "helper-error-propagated:%s" % n["name"], F.loc(b, n),
                           "the Result of `%s` (which carries errors of the user's derivative) is not propagated with `?` unchanged (found under %s%s): "
                           "a user error can be dropped or replaced by another error" % (n["name"], par.get("k"), ":" + par.get("name", "") if par.get("name") else ""),
                           sample="%s: self.%s(..)?" % (b["name"], n["name"]))
-    run.floor("R6.5", "ivp", "calls of helpers that carry user errors", n_helper, 7)
-    run.floor("R6.5", "ivp", "calls of the user derivative", n_calls, 15)
-    run.floor("R6.5", "ivp::bdf", "calls of the residual closure", n_g, 4)
+    run.floor("R6.5", "ivp", "calls of helpers that carry user errors", n_helper, 4)
+    run.floor("R6.5", "ivp", "calls of the user derivative", n_calls, 8)
+    run.floor("R6.5", "ivp::bdf", "calls of the residual closure", n_g, 2)
     run.call_sites += n_calls + n_g
     # conversion chain
     chain = [
@@ -560,7 +566,7 @@ def check_no_panic(F, run):
                     bad.append(("index", x))
             run.check(not bad, "R6.7", "%s::%s" % (bname, method), "no-panic", F.loc(b, bad[0][1]) if bad else F.loc(b),
                       "builder method can panic: %s" % ", ".join("%s `%s`" % (w, pp(x)[:50]) for w, x in bad[:3]))
-    run.floor("R6.7", "ivp", "builder methods scanned", n, 40)
+    run.floor("R6.7", "ivp", "builder methods scanned", n, 28)
     # default trait method with_initial_conditions_slice
     c = [b for b in F.bodies if b["name"] == "with_initial_conditions_slice"]
     for b in c:
